@@ -191,3 +191,11 @@ package service
 //@   flag checks=-index,-assert
 //@   modifies nothing
 //@   ensures lookup-window-is-the-select-window: result.DateFrom == from && result.DateTo == to
+
+// Label names (Loki / Prometheus labels endpoints): the read of the label index - rows
+// dated by UTC day - is bounded by days that cover the UTC days of the whole requested
+// range, in whatever zone the process runs.
+//@ func (*QueryLabelsService).Labels [C13]
+//@   flag checks=-index,-assert
+//@   at sql_select.Ge lower-date-covers-window-start: isDateCol(arg0) ==> fmtDay <= fdiv((startMs / 1000) * 1000000000, 86400000000000)
+//@   at sql_select.Le upper-date-covers-window-end: isDateCol(arg0) ==> fmtDay >= fdiv((endMs / 1000) * 1000000000, 86400000000000)
